@@ -231,6 +231,12 @@ func Text(b []byte, elem string) (string, bool) {
 type Step struct {
 	Want  []string
 	Reply func(chunk []byte) string
+	// Match, when set, replaces the Want comparison: it is given everything the
+	// library wrote since the previous exchange (complete or not) and reports
+	// whether the peer has seen enough to answer.  It models a peer that parses
+	// incrementally and acts on a complete child element without waiting for
+	// its parent's end tag.
+	Match func(pending []byte) bool
 }
 
 // Say is a Step reply that does not depend on what the library wrote.
@@ -311,10 +317,17 @@ func (p *Peer) Script() bufconn.Script {
 			return nil, true
 		}
 		st := p.steps[p.i]
-		names, complete := Units(p.acc)
-		if !complete || !sameNames(names, st.Want) {
-			p.gaveUp = true
-			return nil, true
+		if st.Match != nil {
+			if !st.Match(p.acc) {
+				p.gaveUp = true
+				return nil, true
+			}
+		} else {
+			names, complete := Units(p.acc)
+			if !complete || !sameNames(names, st.Want) {
+				p.gaveUp = true
+				return nil, true
+			}
 		}
 		chunk := p.acc
 		p.acc = nil
@@ -467,7 +480,19 @@ type CustomCfg struct {
 	Restart    bool              // on success return the session's connection (stream restart)
 	Refuse     bool              // receiver role: answer <fail/> and return an error
 	FailMask   xmpp.SessionState // returned together with the error
+	// ListErr makes List return ErrList: "clean" before writing anything,
+	// "partial" after having written the start tag of its element.
+	ListErr string
+	// ParseErr makes Parse return ErrParse: "clean" without touching the
+	// decoder, "consumed" after having decoded the advertised element.
+	ParseErr string
 }
+
+// Errors of the failing List / Parse callbacks.
+var (
+	ErrList  = errors.New("hspeer: custom feature cannot be listed")
+	ErrParse = errors.New("hspeer: custom feature cannot be parsed")
+)
 
 // ErrRefused is returned by a custom feature whose negotiation was refused.
 var ErrRefused = errors.New("hspeer: custom feature refused")
@@ -479,8 +504,14 @@ func Custom(c CustomCfg) xmpp.StreamFeature {
 		Necessary:  c.Necessary,
 		Prohibited: c.Prohibited,
 		List: func(ctx context.Context, e xmlstream.TokenWriter, start xml.StartElement) (bool, error) {
+			if c.ListErr == "clean" {
+				return c.Req, ErrList
+			}
 			if err := e.EncodeToken(start); err != nil {
 				return c.Req, err
+			}
+			if c.ListErr == "partial" {
+				return c.Req, ErrList
 			}
 			if c.Req {
 				r := xml.StartElement{Name: xml.Name{Local: "required"}}
@@ -494,11 +525,17 @@ func Custom(c CustomCfg) xmpp.StreamFeature {
 			return c.Req, e.EncodeToken(start.End())
 		},
 		Parse: func(ctx context.Context, d *xml.Decoder, start *xml.StartElement) (bool, interface{}, error) {
+			if c.ParseErr == "clean" {
+				return c.Req, nil, ErrParse
+			}
 			v := struct {
 				XMLName  xml.Name
 				Required *struct{} `xml:"required"`
 			}{}
 			err := d.DecodeElement(&v, start)
+			if err == nil && c.ParseErr == "consumed" {
+				return v.Required != nil, nil, ErrParse
+			}
 			return v.Required != nil, nil, err
 		},
 		Negotiate: func(ctx context.Context, s *xmpp.Session, data interface{}) (xmpp.SessionState, io.ReadWriter, error) {
